@@ -28,7 +28,7 @@ NLOCS = [1, 2, 3, 5, 10, 20, 32, 40]
 
 def cases(tier, seed):
     rnd = random.Random(13000 + seed)
-    reps = 1 if tier == "quick" else 8
+    reps = 1 if tier == "quick" else 24
     for _ in range(reps):
         for nl, regime, b, dtype in itertools.product(NLOCS, ["std", "smallvar", "largevar", "farmean"], [[], [3], [2, 3]], ["normal", "mvn_dense", "mvn_diag"]):
             if tier == "quick" and rnd.random() < 0.6:
